@@ -6,13 +6,15 @@ Writes seeded/<id>/{patch.diff, demo.diff, meta.json} and seeded/INDEX.md."""
 import glob, json, os, shutil, sys
 
 rows = []
-for d in sorted(glob.glob("/tmp/wt-C*/MUTANT_*")):
+for d in sorted(glob.glob("/tmp/wt*-C*/MUTANT_*")):
     ev = os.path.join(d, "eval.json")
     if not os.path.exists(ev):
         continue
     e = json.load(open(ev))
-    prop = os.path.basename(os.path.dirname(d)).replace("wt-", "")
-    mid = f"{prop}-{os.path.basename(d).replace('MUTANT_', '')}"
+    wt = os.path.basename(os.path.dirname(d))
+    prop = wt.split("-")[1]
+    rnd = "2" if wt.startswith("wt2") else ""
+    mid = f"{prop}-{rnd}{os.path.basename(d).replace('MUTANT_', '')}"
     ok_demo = e.get("demo_on_clean_tree") == "passes" and e.get("demo_with_change") == "fails"
     ok_suite = e.get("existing_suite_ok")
     status = "confirmed" if (ok_demo and ok_suite) else ("suite-pending" if ok_demo and ok_suite is None else "rejected")
